@@ -172,6 +172,9 @@ func (m *c03Model) collisions(r *Run, ch *ChainSt, post *ChainView) []Violation 
 	}
 	for _, f := range fields {
 		cands = append(cands, cand{"case:" + f, "-"}, cand{"swap:" + f, "-"})
+		for k := 0; k < nTargetSpellings; k++ {
+			cands = append(cands, cand{"alias:" + f, fmt.Sprint(k)})
+		}
 	}
 	hh := safeHash(honest)
 	var refDump Dump
@@ -202,7 +205,11 @@ func (m *c03Model) collisions(r *Run, ch *ChainSt, post *ChainView) []Violation 
 			if len(diff) > 0 {
 				msg += ": " + diff[0].String()
 			}
-			vs = append(vs, viol("same-attestation-same-effect", ev.Kind+"/"+cd.f+"/"+fieldsOf(cd.v), "%s", msg))
+			site := ev.Kind + "/" + cd.f + "/" + fieldsOf(cd.v)
+			if strings.HasPrefix(cd.f, "alias:") {
+				site = ev.Kind + "/" + cd.f + "/-"
+			}
+			vs = append(vs, viol("same-attestation-same-effect", site, "%s", msg))
 		}
 	}
 	return vs
